@@ -526,7 +526,17 @@ def propWrC (args : List String) (impl : String) : String :=
 def kfOf (args : List String) : String :=
   match parse args true with
   | none => "-"
-  | some c => if c.stream && c.files.length ≥ 2 && !pinnedStreamCfg.clearsHeader then "KF-C11-1" else "-"
+  | some c =>
+    if c.stream && c.files.length ≥ 2 && !pinnedStreamCfg.clearsHeader then "KF-C11-1"
+    -- KF-C09-ctx-discard: `EncodeWithContext` on a plain writer whose context is cancelled during the DRY RUN, and the caller
+    -- goes on using the encoder (a later FIT value exists)
+    else if !pinnedCtxCfg.restoresWriter && c.ctxMode && !c.stream && c.kind == .plain && !c.nilw && c.cont &&
+        (match c.cx with
+          | some (i, k) => (match c.files[i]? with
+            | some f => decide (k < f.msgs.length) && decide (i + 1 < c.files.length)
+            | none => false)
+          | none => false) then "KF-C09-ctx-discard"
+    else "-"
 
 def hWr : Handler := fun r =>
   match r.mode with
